@@ -116,9 +116,16 @@ def format_sites(text):
             um = re.search(r'(_\d+) = (?:std|alloc)::fmt::format\(move %s\)' % re.escape(res_local), text)
             use = ('string', um.group(1)) if um else 'unknown'
         sites.append({'template': template, 'args': args, 'defs': defs, 'names': names, 'use': use, 'mir': MIR_TEXT.get('mir')})
-    for m in re.finditer(r"Arguments::<'_>::from_str(?:_nonconst)?\((?:const |move )", text):
-        pass
     return sites
+
+
+def const_sites(text):
+    """constant lines: Arguments::from_str(const "...") handed to write_fmt"""
+    out = []
+    for m in re.finditer(r"(_\d+) = Arguments::<'_>::from_str(?:_nonconst)?(?:::<\d+>)?\(const \"((?:[^\"\\]|\\.)*)\"\)", text):
+        if re.search(r'write_fmt\([^)]*move %s\)' % re.escape(m.group(1)), text):
+            out.append(mirsym.unescape(m.group(2)).decode())
+    return out
 
 
 def template_pieces(template):
@@ -184,9 +191,21 @@ QSTR = concat(re_lit('"'), z3.Star(union(char_not(['"', '\\']), concat(re_lit('\
 DEBUG_STR = QSTR
 
 
+def _nocase(word):
+    return concat(*[union(re_lit(c.lower()), re_lit(c.upper())) for c in word])
+
+
+DOT_KEYWORDS = ('node', 'edge', 'graph', 'digraph', 'subgraph', 'strict')
+# an unquoted DOT ID: a name that is not a keyword (in any case), or a numeral
+DOT_NAME = z3.Intersect(concat(union(z3.Range('a', 'z'), z3.Range('A', 'Z'), re_lit('_')), z3.Star(IDCHAR)),
+                        z3.Complement(union(*[_nocase(k) for k in DOT_KEYWORDS])))
+DOT_NUMERAL = concat(z3.Option(re_lit('-')), union(concat(re_lit('.'), DIGITS), concat(DIGITS, z3.Option(concat(re_lit('.'), z3.Star(z3.Range('0', '9')))))))
+DOT_ID = union(DOT_NAME, DOT_NUMERAL)
+
+
 def dot_line_language():
     ws = z3.Star(union(re_lit(' '), re_lit('\t')))
-    ident = z3.Plus(IDCHAR)
+    ident = DOT_ID
     val = union(ident, QSTR)
     attr = concat(ident, ws, re_lit('='), ws, val)
     attrs = concat(re_lit('['), ws, attr, z3.Star(concat(ws, z3.Option(union(re_lit(','), re_lit(';'))), ws, attr)), ws, re_lit(']'))
@@ -336,6 +355,9 @@ def arg_language(arg, site):
         if o[0] == 'call' and 'fmt::format' in o[1]:
             # an unnamed intermediate string: the only ones are "{pos}: {cmd}" handed to make_dot_string_constant
             return ANY, 'formatted-text'
+        if o[0] == 'name' and o[2] not in site['defs']:
+            # a parameter of the function: whatever the caller passes
+            return ANY, 'parameter:%s' % o[1]
         callee = None
         if o[0] == 'call':
             callee = o[1]
@@ -654,6 +676,7 @@ def analyse(job):
 
 # -- E1' driver -----------------------------------------------------------------------------------------
 
+HOSTILE_COMMAND_NAMES = ['docker-compose', 'python3.11', 'g++', '7z', 'node', 'Graph']
 REPLAY_TEXTS = ['"', '\\', '\\"', 'a"b', 'a\\', 'x\\"y', '">', '\n']
 
 
@@ -670,6 +693,8 @@ def replay_battery(shell='bash'):
             out.append(('nonterminal-name', t, gram.mk('cmd', gram.Seq(gram.Ref('N' + t), gram.Lit('z')))))
         if '}}}' not in t:
             out.append(('command', t, gram.mk('cmd', gram.Seq(gram.Cmd('echo ' + t), gram.Lit('z')))))
+    for name in HOSTILE_COMMAND_NAMES:
+        out.append(('command-name', name, gram.mk(name, gram.Seq(gram.Sub(gram.Lit('o='), gram.Alt(gram.Lit('a'), gram.Lit('y'))), gram.Lit('z')))))
     return out
 
 
@@ -694,16 +719,32 @@ def check_sites(mir, stats):
             if not ok:
                 bad.append((fn, shown, kinds, witness))
         rows.append({'function': fn, 'identifier_shapes_rederived_from_mir': sorted(verified)})
-    # the wrappers that print the header / footer
+    # the wrappers that print the header / footer, and the constant lines of all four functions
+    wrappers = []
     for fn_pat in (r'dfa::<impl at [^>]*>::to_dot', r'regex::<impl at [^>]*>::to_dot'):
         m = re.search(r'^fn (%s)\(' % fn_pat, mir, re.M)
         if not m:
             raise mirsym.Unsupported('to_dot wrapper not found')
-        text = mirsym.function_text(mir, m.group(1))
-        n = 0
-        for cm in re.finditer(r'from_str(?:_nonconst)?::<\d+>\(const "(.*?)"\)|const "(digraph [^"]*|\\trankdir[^"]*|\}\\n)"', text):
-            n += 1
-        rows.append({'function': m.group(1), 'constant_lines_seen': n})
+        wrappers.append(m.group(1))
+    for fn in wrappers:
+        text = mirsym.function_text(mir, fn)
+        for st in format_sites(text):
+            if st['use'] != 'emitted':
+                raise mirsym.Unsupported('a formatted value of %s is not written' % fn)
+            ok, witness, shown, kinds = site_query(st, line_lang, stats)
+            rows.append({'function': fn, 'template': shown, 'arguments': kinds, 'well_formed_for_all_values': ok, 'witness': witness})
+            if not ok:
+                bad.append((fn, shown, kinds, witness))
+    for fn in ['dfa::do_to_dot', 'regex::do_to_dot'] + wrappers:
+        consts = const_sites(mirsym.function_text(mir, fn))
+        for c in consts:
+            s0 = z3.Solver()
+            s0.add(z3.Not(z3.InRe(z3.StringVal(c), z3.Plus(line_lang))))
+            r = s0.check()
+            stats.note('dot-const-line', str(r), 0.0)
+            if r != z3.unsat:
+                bad.append((fn, c, [], c))
+        rows.append({'function': fn, 'constant_lines': consts})
     return rows, assumptions, bad
 
 
@@ -711,15 +752,23 @@ def lines_in_site_languages(mir, files, stats):
     """translator validation: every line of real dumps belongs to the language of some emitted site"""
     langs = []
     MIR_TEXT['mir'] = mir
-    for fn in ('dfa::do_to_dot', 'regex::do_to_dot'):
-        for st in format_sites(mirsym.function_text(mir, fn)):
+    fns = ['dfa::do_to_dot', 'regex::do_to_dot']
+    for fn_pat in (r'dfa::<impl at [^>]*>::to_dot', r'regex::<impl at [^>]*>::to_dot'):
+        m = re.search(r'^fn (%s)\(' % fn_pat, mir, re.M)
+        if m:
+            fns.append(m.group(1))
+    consts = ['\n']
+    for fn in fns:
+        ftext = mirsym.function_text(mir, fn)
+        consts += const_sites(ftext)
+        for st in format_sites(ftext):
             if st['use'] != 'emitted':
                 continue
             parts = []
             for p in template_pieces(st['template']):
                 parts.append(re_lit(p[1]) if p[0] == 'lit' else arg_language(st['args'][p[1]], st)[0])
             langs.append(concat(*parts))
-    fixed = union(re_lit('digraph dfa {\n'), re_lit('digraph rx {\n'), re_lit('\trankdir=LR;\n'), re_lit('}\n'), re_lit('\n'))
+    fixed = union(*[re_lit(l + '\n') for c in consts for l in c.split('\n')[:-1]] + [re_lit('\n')])
     L = union(fixed, *langs)
     checked = 0
     for text in files:
